@@ -16,13 +16,16 @@ type shimModel struct {
 	w        *World
 	pure     map[*ssa.Function]bool
 	Server   *types.Named
-	fLocked  string // the only bool field tested before operations: by type bool + written by Lock/Unlock
-	fCerts   string // map[hashcode]*certificate
-	fCache   string // map[hashcode]struct{}
-	fAgent   string // agent.ExtendedAgent
-	fConn    string // io.ReadWriteCloser
-	fMu      string // sync.RWMutex
-	fNoUp    string // the other bool field (no-upstream mode)
+	fLocked  string         // the field tested before operations: a bool or small-integer state written by Lock/Unlock
+	flagEnum bool           // the lock flag is an integer state, not a bool
+	lockedK  int64          // ... whose value "locked" is the constant Lock stores
+	flagVals map[int64]bool // ... and these are all the values it can hold (zero value and every stored constant)
+	fCerts   string         // map[hashcode]*certificate
+	fCache   string         // map[hashcode]struct{}
+	fAgent   string         // agent.ExtendedAgent
+	fConn    string         // io.ReadWriteCloser
+	fMu      string         // sync.RWMutex
+	fNoUp    string         // the other bool field (no-upstream mode)
 	fConds   string
 	Methods  map[string]*ssa.Function // exported + unexported methods of *Server by name
 	problems []string
@@ -130,6 +133,52 @@ func resolveShim(w *World) *shimModel {
 				if (a.Fn == lock || w.inTree(lock, a.Fn)) && a.Kind == "write" {
 					m.fLocked = b
 				}
+			}
+		}
+	}
+	if lock := m.Methods["Lock"]; lock != nil && m.fLocked == "" {
+		// ... or a state field of a basic integer type that Lock writes a constant into; every writer stores a constant
+		for i := 0; i < st.NumFields(); i++ {
+			f := st.Field(i)
+			if bt, ok := f.Type().Underlying().(*types.Basic); !ok || bt.Info()&types.IsInteger == 0 {
+				continue
+			}
+			vals := map[int64]bool{0: true}
+			lockK, nLock, allConst := int64(0), 0, true
+			for _, a := range w.FieldAccesses(m.Server, f.Name()) {
+				switch a.Kind {
+				case "write":
+					k, isK := intConst(a.Instr.(*ssa.Store).Val)
+					if !isK {
+						if p, isParam := a.Instr.(*ssa.Store).Val.(*ssa.Parameter); isParam {
+							// a shared body storing its parameter: the constants its call sites pass
+							for _, site := range w.callSites(a.Fn) {
+								if i := paramIndex(p); i >= 0 && i < len(site.Common().Args) {
+									if k2, ok := intConst(site.Common().Args[i]); ok {
+										vals[k2] = true
+										if site.Parent() == lock {
+											lockK, nLock = k2, nLock+1
+										}
+										continue
+									}
+								}
+								allConst = false
+							}
+							continue
+						}
+						allConst = false
+						continue
+					}
+					vals[k] = true
+					if a.Fn == lock || w.inTree(lock, a.Fn) && len(w.callSites(a.Fn)) == 1 {
+						lockK, nLock = k, nLock+1
+					}
+				case "addr", "addrcall":
+					allConst = false
+				}
+			}
+			if nLock == 1 && allConst && lockK != 0 {
+				m.fLocked, m.flagEnum, m.lockedK, m.flagVals = f.Name(), true, lockK, vals
 			}
 		}
 	}
@@ -288,15 +337,61 @@ func (m *shimModel) effectFree(fn *ssa.Function, depth int) bool {
 	return ok
 }
 
+// lockedLit: literal l decides the lock flag; locked is its value.
+func (m *shimModel) lockedLit(l Lit) (locked bool, ok bool) {
+	if !m.flagEnum {
+		if m.isLoadOfField(l.V, m.fLocked) {
+			return l.Pol, true
+		}
+		return false, false
+	}
+	bin, isBin := l.V.(*ssa.BinOp)
+	if !isBin || (bin.Op != token.EQL && bin.Op != token.NEQ) {
+		return false, false
+	}
+	x, y := bin.X, bin.Y
+	if _, isK := intConst(x); isK {
+		x, y = y, x
+	}
+	k, isK := intConst(y)
+	if !isK || !m.isLoadOfField(strip(x), m.fLocked) {
+		return false, false
+	}
+	eq := l.Pol == (bin.Op == token.EQL) // the state equals k
+	switch {
+	case k == m.lockedK:
+		return eq, true
+	case eq:
+		return false, true // some other value than "locked"
+	default:
+		// not k: locked when "locked" is the only other value the field can hold
+		for v := range m.flagVals {
+			if v != k && v != m.lockedK {
+				return false, false
+			}
+		}
+		return true, true
+	}
+}
+
 // lockedLits returns whether the lock flag is known (true/false) at block b of fn.
 func (m *shimModel) lockedKnown(fn *ssa.Function, b *ssa.BasicBlock) (val bool, known bool) {
 	f := m.w.Facts(fn)
 	for l := range f.At(b) {
-		if m.isLoadOfField(l.V, m.fLocked) {
-			return l.Pol, true
+		if v, ok := m.lockedLit(l); ok {
+			return v, true
 		}
 	}
 	return false, false
+}
+
+// flagConst: the value v stored into the lock flag, as locked / not locked.
+func (m *shimModel) flagConst(v ssa.Value) (locked bool, ok bool) {
+	if !m.flagEnum {
+		return boolConst(v)
+	}
+	k, isK := intConst(v)
+	return k == m.lockedK, isK
 }
 
 // liveReturns: returns of fn, skipping the synthetic recover block when nothing can recover.
@@ -471,8 +566,8 @@ func runC08(c *Ctx) {
 	}
 	lockedIn := func(view *Facts, b *ssa.BasicBlock) (bool, bool) {
 		for l := range view.At(b) {
-			if m.isLoadOfField(l.V, m.fLocked) {
-				return l.Pol, true
+			if v, ok := m.lockedLit(l); ok {
+				return v, true
 			}
 		}
 		return false, false
@@ -612,11 +707,11 @@ func runC08(c *Ctx) {
 				}
 				nStores++
 				st := a.Instr.(*ssa.Store)
-				bv, isConst := boolConst(st.Val)
+				bv, isConst := m.flagConst(st.Val)
 				if p, isParam := st.Val.(*ssa.Parameter); isParam && fr.site != nil {
 					// the shared body stores its parameter: the constant this call passes
 					if i := paramIndex(p); i >= 0 && i < len(fr.site.Call.Args) {
-						bv, isConst = boolConst(fr.site.Call.Args[i])
+						bv, isConst = m.flagConst(fr.site.Call.Args[i])
 					}
 				}
 				okVal := isConst && bv == spec.val
@@ -646,6 +741,45 @@ func runC08(c *Ctx) {
 				c.Check(known && isNil, "R2.flip", spec.name+"|store gated on underlying success", w.Pos(st.Pos()),
 					"must-fact: underlying "+spec.name+" returned nil", "the lock flag is changed on a path where the underlying agent's "+spec.name+" result is not known to be nil")
 			}
+			// ... or the store sits in a helper that only the flag-writing methods call: read per call site, the stored
+			// value and the tested result being the arguments of that site
+			for _, a := range w.FieldAccesses(m.Server, m.fLocked) {
+				if a.Fn == fn || a.Kind != "write" || !m.flagHelper(a.Fn, flagWriters) {
+					continue
+				}
+				st := a.Instr.(*ssa.Store)
+				for _, site := range w.callSites(a.Fn) {
+					sc, isCall := site.(*ssa.Call)
+					if !isCall || sc.Parent() != fn || !live(sc.Block()) {
+						continue
+					}
+					up := func(v ssa.Value) ssa.Value {
+						if p, isParam := strip(v).(*ssa.Parameter); isParam && p.Parent() == a.Fn {
+							if i := paramIndex(p); i >= 0 && i < len(sc.Call.Args) {
+								return throughCell(strip(sc.Call.Args[i]))
+							}
+						}
+						return v
+					}
+					w.Pin(fn, a.Fn, sc, func(hv *Facts) {
+						if hv.At(st.Block()) == nil {
+							return // not executed in this activation
+						}
+						nStores++
+						bv, isConst := m.flagConst(up(st.Val))
+						c.Check(isConst && bv == spec.val, "R2.flip", spec.name+"|stored constant", w.Pos(st.Pos()), "stores "+boolStr(spec.val)+" (argument of the call at "+w.Pos(sc.Pos())+")", "stores "+w.Expr(up(st.Val))+" into the lock flag")
+						isNil, known := false, false
+						for l := range hv.At(st.Block()) {
+							if y, n, ok := nilTest(l); ok && up(y) == ssa.Value(agentCall) {
+								isNil, known = n, true
+							}
+						}
+						// the call is made before the helper runs
+						c.Check(known && isNil && InstrDominates(agentCall, sc), "R2.flip", spec.name+"|store gated on underlying success", w.Pos(st.Pos()),
+							"must-fact in "+shortFn(a.Fn)+": its argument, the underlying "+spec.name+"'s result, is nil", "the lock flag is changed on a path where the underlying agent's "+spec.name+" result is not known to be nil")
+					})
+				}
+			}
 			c.Floor("R2.flip", nStores, 1, "flag store in "+spec.name)
 			// returns after the call yield the call's result
 			for _, r := range liveReturns(fn) {
@@ -656,8 +790,8 @@ func runC08(c *Ctx) {
 					continue
 				}
 				okR := true
-				for _, lf := range w.Leaves(r.Results[0], r) {
-					if lf.Val == ssa.Value(agentCall) {
+				for _, lf := range w.LeavesErr(r.Results[0], r) {
+					if lf.Val == ssa.Value(agentCall) || w.resolveUp(fn, lf.Val) == ssa.Value(agentCall) {
 						continue
 					}
 					if cv, isCall := lf.Val.(*ssa.Call); isCall && fr.site != nil && !live(cv.Block()) {
@@ -695,8 +829,16 @@ func runC08(c *Ctx) {
 	writers := map[string]bool{}
 	for _, a := range w.FieldAccesses(m.Server, m.fLocked) {
 		if a.Kind == "write" || a.Kind == "addr" || a.Kind == "addrcall" {
-			writers[a.Fn.Name()] = true
 			okW := flagWriters[a.Fn] && a.Kind == "write"
+			if !flagWriters[a.Fn] && a.Kind == "write" && m.flagHelper(a.Fn, flagWriters) {
+				// a helper only Lock/Unlock call (R2.flip reads it per call site)
+				okW = true
+				for _, site := range w.callSites(a.Fn) {
+					writers[site.Parent().Name()] = true
+				}
+			} else {
+				writers[a.Fn.Name()] = true
+			}
 			c.Check(okW, "R3.writers", "flag writer "+fnName(a.Fn), w.Pos(a.Instr.Pos()), "writer is Lock/Unlock", "the lock flag is written (or its address taken) outside Lock/Unlock")
 		}
 	}
@@ -724,6 +866,22 @@ func runC08(c *Ctx) {
 			}
 		}
 	}
+}
+
+// flagHelper: h is an unexported, statically called method of the server whose every call site is in the body of a
+// flag-writing method (Lock / Unlock).
+func (m *shimModel) flagHelper(h *ssa.Function, flagWriters map[*ssa.Function]bool) bool {
+	w := m.w
+	if h == nil || h.Parent() != nil || token.IsExported(h.Name()) || w.dynCallable(h) || recvNamed(h) != m.Server {
+		return false
+	}
+	sites := w.callSites(h)
+	for _, s := range sites {
+		if _, isCall := s.(*ssa.Call); !isCall || !flagWriters[s.Parent()] {
+			return false
+		}
+	}
+	return len(sites) > 0
 }
 
 func isGated(name string) bool {
